@@ -239,6 +239,17 @@ type c17Item struct {
 func c17Prepare(cs c17Case) c17Item {
 	it := c17Item{cs: cs}
 	switch cs.Kind {
+	case "sh-after":
+		// the value is the second of two strings that one `@sh` application encodes (cs.Keys[0] is the first)
+		mk := func(s string) *yqlib.CandidateNode { return &yqlib.CandidateNode{Kind: yqlib.ScalarNode, Tag: "!!str", Value: s} }
+		seq := &yqlib.CandidateNode{Kind: yqlib.SequenceNode, Tag: "!!seq"}
+		seq.AddChildren([]*yqlib.CandidateNode{mk(cs.Keys[0]), mk(cs.Value)})
+		res, err, pan := impl.Eval(mustParse(".[] | @sh"), seq)
+		if pan != nil || err != nil || len(res) != 2 {
+			it.bad = fmt.Sprintf(".[] | @sh on two strings: %v %v (%d results)", err, pan, len(res))
+			return it
+		}
+		it.line = "printf '%s\\0' S " + res[1].Value + " E"
 	case "sh":
 		w, err := c17EncodeSh(cs.Value)
 		if err != nil {
@@ -343,6 +354,12 @@ func c17Run(c *fw.Ctx) error {
 			for _, k3 := range c17KeyAtoms[:6] {
 				cases = append(cases, c17Case{Kind: "shellvar", Keys: []string{k1, k2, k3}, Value: "v w"})
 			}
+		}
+	}
+	// two strings through one application of @sh: the second must not depend on the first
+	for _, first := range []string{"x; touch CANARY #", "it's", "a'", "'", "a b", "$(touch CANARY)", "plain", "", "'a", "a\nb"} {
+		for _, v := range []string{"v", "", "a b", "x; touch CANARY #", "$(touch CANARY)", "`touch CANARY`", "it's", "'", "\"", "\\", "a\nb", "-n", "*", "~", "#x", "é", "$HOME", "a'b'c", "''"} {
+			cases = append(cases, c17Case{Kind: "sh-after", Keys: []string{first}, Value: v})
 		}
 	}
 	// the same key (or index) met below another entry first and at the root afterwards, through one encoder
